@@ -258,6 +258,7 @@ PROPS = {
             rapid("c06", "TestPropOversize", quick=(400, 4), thorough=(6000, 8)),
             plain("c06", "TestReplayMemDisconnect"),
             rapid("c06", "TestPropDisconnectMem", quick=(5, 6), thorough=(60, 14)),
+            rapid("c06", "TestPropIdlePeerStalls", quick=(40, 4), thorough=(600, 12)),
             fuzz("c06", "FuzzServerBytes", secs=120, par=4),
         ],
     },
